@@ -218,7 +218,7 @@ func (e *encoderMsgpackBytes) kArrayWMbs(rv reflect.Value, ti *typeInfo, isSlice
 	e.mapStart(l >> 1)
 
 	var fn *encFnMsgpackBytes
-	builtin := ti.tielem.flagEncBuiltin
+	builtin := e.builtinElem(ti.tielem, ti.elemkind)
 	if !builtin {
 		fn = e.kSeqFn(ti.elem)
 	}
@@ -263,14 +263,14 @@ func (e *encoderMsgpackBytes) kArrayW(rv reflect.Value, ti *typeInfo, isSlice bo
 	e.arrayStart(l)
 
 	var fn *encFnMsgpackBytes
-	if !ti.tielem.flagEncBuiltin {
+	builtin := e.builtinElem(ti.tielem, ti.elemkind)
+	if !builtin {
 		fn = e.kSeqFn(ti.elem)
 	}
 
 	j := 0
 	e.c = containerArrayElem
 	e.e.WriteArrayElem(true)
-	builtin := ti.tielem.flagEncBuiltin
 	for {
 		rvv := rvArrayIndex(rv, j, ti, isSlice)
 		if builtin {
@@ -408,7 +408,7 @@ func (e *encoderMsgpackBytes) kStructSimple(f *encFnInfo, rv reflect.Value) {
 		for j, si = range tisfi {
 			e.c = containerArrayElem
 			e.e.WriteArrayElem(j == 0)
-			if si.encBuiltin {
+			if e.builtinField(si) {
 				e.encodeIB(rv2i(si.fieldNoAlloc(rv, true)))
 			} else {
 				e.encodeValue(si.fieldNoAlloc(rv, !chkCirRef), nil)
@@ -430,7 +430,7 @@ func (e *encoderMsgpackBytes) kStructSimple(f *encFnInfo, rv reflect.Value) {
 			e.e.WriteMapElemKey(j == 0)
 			e.e.EncodeStringNoEscape4Json(si.encName)
 			e.mapElemValue()
-			if si.encBuiltin {
+			if e.builtinField(si) {
 				e.encodeIB(rv2i(si.fieldNoAlloc(rv, true)))
 			} else {
 				e.encodeValue(si.fieldNoAlloc(rv, !chkCirRef), nil)
@@ -484,7 +484,7 @@ func (e *encoderMsgpackBytes) kStruct(f *encFnInfo, rv reflect.Value) {
 					continue
 				}
 			} else {
-				kv.r = si.fieldNoAlloc(rv, si.encBuiltin || !chkCirRef)
+				kv.r = si.fieldNoAlloc(rv, !chkCirRef || e.builtinField(si))
 			}
 			kv.v = si
 			fkvs[newlen] = kv
@@ -518,7 +518,7 @@ func (e *encoderMsgpackBytes) kStruct(f *encFnInfo, rv reflect.Value) {
 			for j = 0; j < newlen; j++ {
 				kv = fkvs[j]
 				mf2w[j] = encStructFieldObj{kv.v.encName, kv.r, nil, true,
-					!kv.v.encNameEscape4Json, kv.v.encBuiltin}
+					!kv.v.encNameEscape4Json, e.builtinField(kv.v)}
 			}
 			for _, v := range mf2s {
 				mf2w[j] = encStructFieldObj{v.v, reflect.Value{}, v.i, false, false, false}
@@ -559,7 +559,7 @@ func (e *encoderMsgpackBytes) kStruct(f *encFnInfo, rv reflect.Value) {
 					e.kStructFieldKey(keytyp, kv.v.encName)
 				}
 				e.mapElemValue()
-				if kv.v.encBuiltin {
+				if e.builtinField(kv.v) {
 					e.encodeIB(rv2i(baseRVRV(kv.r)))
 				} else {
 					e.encodeValue(kv.r, nil)
@@ -591,7 +591,7 @@ func (e *encoderMsgpackBytes) kStruct(f *encFnInfo, rv reflect.Value) {
 					kv.r = reflect.Value{}
 				}
 			} else {
-				kv.r = si.fieldNoAlloc(rv, si.encBuiltin || !chkCirRef)
+				kv.r = si.fieldNoAlloc(rv, !chkCirRef || e.builtinField(si))
 			}
 			kv.v = si
 			fkvs[i] = kv
@@ -609,7 +609,7 @@ func (e *encoderMsgpackBytes) kStruct(f *encFnInfo, rv reflect.Value) {
 			kv = fkvs[j]
 			if !kv.r.IsValid() {
 				e.e.EncodeNil()
-			} else if kv.v.encBuiltin {
+			} else if e.builtinField(kv.v) {
 				e.encodeIB(rv2i(baseRVRV(kv.r)))
 			} else {
 				e.encodeValue(kv.r, nil)
@@ -675,8 +675,8 @@ func (e *encoderMsgpackBytes) kMap(f *encFnInfo, rv reflect.Value) {
 	var it mapIter
 	mapRange(&it, rv, rvk, rvv, true)
 
-	kbuiltin := f.ti.tikey.flagEncBuiltin
-	vbuiltin := f.ti.tielem.flagEncBuiltin
+	kbuiltin := e.builtinElem(f.ti.tikey, f.ti.keykind)
+	vbuiltin := e.builtinElem(f.ti.tielem, f.ti.elemkind)
 	for j := 0; it.Next(); j++ {
 		rv = it.Key()
 		e.c = containerMapKey
@@ -4298,7 +4298,7 @@ func (e *encoderMsgpackIO) kArrayWMbs(rv reflect.Value, ti *typeInfo, isSlice bo
 	e.mapStart(l >> 1)
 
 	var fn *encFnMsgpackIO
-	builtin := ti.tielem.flagEncBuiltin
+	builtin := e.builtinElem(ti.tielem, ti.elemkind)
 	if !builtin {
 		fn = e.kSeqFn(ti.elem)
 	}
@@ -4343,14 +4343,14 @@ func (e *encoderMsgpackIO) kArrayW(rv reflect.Value, ti *typeInfo, isSlice bool)
 	e.arrayStart(l)
 
 	var fn *encFnMsgpackIO
-	if !ti.tielem.flagEncBuiltin {
+	builtin := e.builtinElem(ti.tielem, ti.elemkind)
+	if !builtin {
 		fn = e.kSeqFn(ti.elem)
 	}
 
 	j := 0
 	e.c = containerArrayElem
 	e.e.WriteArrayElem(true)
-	builtin := ti.tielem.flagEncBuiltin
 	for {
 		rvv := rvArrayIndex(rv, j, ti, isSlice)
 		if builtin {
@@ -4488,7 +4488,7 @@ func (e *encoderMsgpackIO) kStructSimple(f *encFnInfo, rv reflect.Value) {
 		for j, si = range tisfi {
 			e.c = containerArrayElem
 			e.e.WriteArrayElem(j == 0)
-			if si.encBuiltin {
+			if e.builtinField(si) {
 				e.encodeIB(rv2i(si.fieldNoAlloc(rv, true)))
 			} else {
 				e.encodeValue(si.fieldNoAlloc(rv, !chkCirRef), nil)
@@ -4510,7 +4510,7 @@ func (e *encoderMsgpackIO) kStructSimple(f *encFnInfo, rv reflect.Value) {
 			e.e.WriteMapElemKey(j == 0)
 			e.e.EncodeStringNoEscape4Json(si.encName)
 			e.mapElemValue()
-			if si.encBuiltin {
+			if e.builtinField(si) {
 				e.encodeIB(rv2i(si.fieldNoAlloc(rv, true)))
 			} else {
 				e.encodeValue(si.fieldNoAlloc(rv, !chkCirRef), nil)
@@ -4564,7 +4564,7 @@ func (e *encoderMsgpackIO) kStruct(f *encFnInfo, rv reflect.Value) {
 					continue
 				}
 			} else {
-				kv.r = si.fieldNoAlloc(rv, si.encBuiltin || !chkCirRef)
+				kv.r = si.fieldNoAlloc(rv, !chkCirRef || e.builtinField(si))
 			}
 			kv.v = si
 			fkvs[newlen] = kv
@@ -4598,7 +4598,7 @@ func (e *encoderMsgpackIO) kStruct(f *encFnInfo, rv reflect.Value) {
 			for j = 0; j < newlen; j++ {
 				kv = fkvs[j]
 				mf2w[j] = encStructFieldObj{kv.v.encName, kv.r, nil, true,
-					!kv.v.encNameEscape4Json, kv.v.encBuiltin}
+					!kv.v.encNameEscape4Json, e.builtinField(kv.v)}
 			}
 			for _, v := range mf2s {
 				mf2w[j] = encStructFieldObj{v.v, reflect.Value{}, v.i, false, false, false}
@@ -4639,7 +4639,7 @@ func (e *encoderMsgpackIO) kStruct(f *encFnInfo, rv reflect.Value) {
 					e.kStructFieldKey(keytyp, kv.v.encName)
 				}
 				e.mapElemValue()
-				if kv.v.encBuiltin {
+				if e.builtinField(kv.v) {
 					e.encodeIB(rv2i(baseRVRV(kv.r)))
 				} else {
 					e.encodeValue(kv.r, nil)
@@ -4671,7 +4671,7 @@ func (e *encoderMsgpackIO) kStruct(f *encFnInfo, rv reflect.Value) {
 					kv.r = reflect.Value{}
 				}
 			} else {
-				kv.r = si.fieldNoAlloc(rv, si.encBuiltin || !chkCirRef)
+				kv.r = si.fieldNoAlloc(rv, !chkCirRef || e.builtinField(si))
 			}
 			kv.v = si
 			fkvs[i] = kv
@@ -4689,7 +4689,7 @@ func (e *encoderMsgpackIO) kStruct(f *encFnInfo, rv reflect.Value) {
 			kv = fkvs[j]
 			if !kv.r.IsValid() {
 				e.e.EncodeNil()
-			} else if kv.v.encBuiltin {
+			} else if e.builtinField(kv.v) {
 				e.encodeIB(rv2i(baseRVRV(kv.r)))
 			} else {
 				e.encodeValue(kv.r, nil)
@@ -4755,8 +4755,8 @@ func (e *encoderMsgpackIO) kMap(f *encFnInfo, rv reflect.Value) {
 	var it mapIter
 	mapRange(&it, rv, rvk, rvv, true)
 
-	kbuiltin := f.ti.tikey.flagEncBuiltin
-	vbuiltin := f.ti.tielem.flagEncBuiltin
+	kbuiltin := e.builtinElem(f.ti.tikey, f.ti.keykind)
+	vbuiltin := e.builtinElem(f.ti.tielem, f.ti.elemkind)
 	for j := 0; it.Next(); j++ {
 		rv = it.Key()
 		e.c = containerMapKey
